@@ -142,9 +142,21 @@ def f_pysmt(f, names):
     return Or(f_pysmt(f[1], names), f_pysmt(f[2], names))
 
 
+NAME_STYLES = [
+    None,                                                                                   # a, b, c, ...
+    ["a", "a1", "ab", "a10", "b", "a_b", "b1", "a-1", "ba", "b-a", "a2", "b_", "aa"],        # names sharing prefixes
+    ["Top1", "not", "signature1", "x", "and", "Bottom_", "or", "conditional", "T", "F", "in", "eta_1", "True"],   # keyword-like names
+]
+
+
 def names_for(n: int):
-    base = "abcdefghijklmnopqrstuvwxyz"
-    return [base[i] if i < 26 else f"x{i}" for i in range(n)]
+    """atom names of a case with n atoms; the style depends on n only, so that every place (and every process) that names the
+    atoms of a case uses the same names: plain letters, names sharing prefixes, or names that look like keywords"""
+    style = NAME_STYLES[n % 3] if os.environ.get("VERIF_PLAIN_NAMES") != "1" else None
+    if style is None or n > len(style):
+        base = "abcdefghijklmnopqrstuvwxyz"
+        return [base[i] if i < 26 else f"x{i}" for i in range(n)]
+    return style[:n]
 
 
 def cond_prefix(key, c) -> str:
